@@ -147,7 +147,12 @@ pub fn fill_parity(num_vars: usize, table: &mut [u64]) {
 
 /// Fill with an equals-k function
 pub fn fill_equals(num_vars: usize, table: &mut [u64], k: usize) {
-    fill_symmetric(num_vars, table, 1 << k);
+    if k > num_vars {
+        // No input combination has more than num_vars true inputs (and 1 << k would overflow)
+        fill_zero(num_vars, table);
+    } else {
+        fill_symmetric(num_vars, table, 1 << k);
+    }
 }
 
 /// Fill with a threshold function
